@@ -1118,6 +1118,251 @@ def idFromDb : DbId → Str
   | .oid b => bytesHex b
   | .str s => s
 
+/-! ### what the driver sends to the document engine, and the engine it expects
+
+`EVal` are the values the engine sees: Python values, or ObjectIds. The translation functions mirror
+`_id_to_db_rec` + `_filt_to_db` (fused: first the "id" condition is moved to "_id" with the id mapping applied to
+its operands, then operator names are mapped), the sort / projection construction of `query`, `insert`'s
+record → document, and `_query_gen_wrapper`. -/
+
+inductive EVal where
+  | j (v : JVal)
+  | oid (b : List Nat)
+  deriving Repr, Inhabited
+
+/-- operand of a `$`-operator: a single value, or (for the id condition's `in`) a list of mapped ids -/
+inductive EOperand where
+  | one (v : EVal)
+  | many (l : List EVal)
+  deriving Repr
+
+inductive ECond where
+  | eq (v : EVal)
+  | ops (l : List (Str × EOperand))
+  deriving Repr
+
+abbrev EFilt := List (Str × ECond)
+abbrev EDoc := List (Str × EVal)
+
+def kUid : Str := [95, 105, 100]                                   -- "_id"
+def dGt : Str := [36, 103, 116]                                    -- "$gt"
+def dGte : Str := [36, 103, 116, 101]
+def dLt : Str := [36, 108, 116]
+def dLte : Str := [36, 108, 116, 101]
+def dIn : Str := [36, 105, 110]
+
+/-- `FILTER_OP_MAPPING[k]` (`none` = `KeyError`) -/
+def opTable (op : Str) : Option Str :=
+  if op = opGt then some dGt else if op = opGe then some dGte else if op = opLt then some dLt
+  else if op = opLe then some dLte else if op = opIn then some dIn else none
+
+/-- `_id_to_db` on any Python value: strings are mapped, everything else is returned as it is -/
+def idV (fx : Fix) : JVal → Option EVal
+  | .str s => (idToDb fx s).map (fun d => match d with | .oid b => EVal.oid b | .str t => EVal.j (.str t))
+  | v => some (.j v)
+
+def idVs (fx : Fix) : List JVal → Option (List EVal)
+  | [] => some []
+  | x :: t =>
+    match idV fx x, idVs fx t with
+    | some e, some r => some (e :: r)
+    | _, _ => none
+
+/-- the operators of the "id" condition: `_id_to_db_rec` on the operand (a list is mapped element-wise; a nested
+dict is outside the model), then the operator name -/
+def idOps (fx : Fix) : List (Str × JVal) → Option (List (Str × EOperand))
+  | [] => some []
+  | (op, w) :: t =>
+    let operand : Option EOperand :=
+      match w with
+      | .arr l => (idVs fx l).map .many
+      | .obj _ => none
+      | w => (idV fx w).map .one
+    match operand, opTable op, idOps fx t with
+    | some o, some name, some r => some ((name, o) :: r)
+    | _, _, _ => none
+
+/-- the "id" condition as the engine gets it under "_id" -/
+def idCond (fx : Fix) : JVal → Option ECond
+  | .obj ops => (idOps fx ops).map .ops
+  | .arr _ => none                                 -- a bare list: outside the model
+  | w => (idV fx w).map .eq
+
+def plainOps : List (Str × JVal) → Option (List (Str × EOperand))
+  | [] => some []
+  | (op, w) :: t =>
+    match opTable op, plainOps t with
+    | some name, some r => some ((name, .one (.j w)) :: r)
+    | _, _ => none
+
+/-- `_filt_to_db` on one condition of another field -/
+def plainCond : JVal → Option ECond
+  | .obj ops => (plainOps ops).map .ops
+  | w => some (.eq (.j w))
+
+def plainConds : Fields → Option EFilt
+  | [] => some []
+  | (k, c) :: t =>
+    match plainCond c, plainConds t with
+    | some e, some r => some ((k, e) :: r)
+    | _, _ => none
+
+/-- `if 'id' in filt: filt = dict(filt); filt['_id'] = self._id_to_db_rec(filt.pop('id'))`, then `_filt_to_db` -/
+def filtToDb (fx : Fix) (filt : Fields) : Option EFilt :=
+  match dget kId filt with
+  | none => plainConds filt
+  | some c =>
+    match idCond fx c, plainConds (dpop kId filt) with
+    | some e, some r => some (r ++ [(kUid, e)])
+    | _, _ => none
+
+/-- `[(f, [pymongo.ASCENDING, pymongo.DESCENDING][r]) for f, r in sort]` -/
+def sortToDb (sort : List (Str × Bool)) : List (Str × Int) := sort.map (fun fr => (fr.1, if fr.2 then -1 else 1))
+
+/-- `if fields: fields = dict((f, 1) for f in fields); fields['_id'] = 1 if 'id' in fields else 0` -/
+def projToDb (fields : Option (List Str)) : Option (List (Str × Nat)) :=
+  match fields with
+  | none => none
+  | some [] => none
+  | some fs => some (dset kUid (if fs.contains kId then 1 else 0) (fs.foldl (fun acc f => dset f 1 acc) []))
+
+/-- a record's fields as engine values -/
+def toE (d : Fields) : EDoc := d.map (fun kv => (kv.1, EVal.j kv.2))
+
+/-- `record = dict(record); if 'id' in record: record['_id'] = self._id_to_db(record.pop('id'))` -/
+def recordToDoc (fx : Fix) (rec : Fields) : Option EDoc :=
+  match dget kId rec with
+  | none => some (toE rec)
+  | some i => (idV fx i).map (fun e => dset kUid e (toE (dpop kId rec)))
+
+def eToJ : EVal → JVal
+  | .j v => v
+  | .oid b => .str (bytesHex b)
+
+/-- `_query_gen_wrapper`: `if '_id' in r: r['id'] = cls._id_from_db(r.pop('_id'))` -/
+def recordFromDoc (doc : EDoc) : Fields :=
+  match dget kUid doc with
+  | none => doc.map (fun kv => (kv.1, eToJ kv.2))
+  | some e => dset kId (eToJ e) ((dpop kUid doc).map (fun kv => (kv.1, eToJ kv.2)))
+
+/-! ### SPEC of the document engine (the part of `find` / `update_many` / `replace_one` / `delete_many` /
+`insert_one` the driver relies on, on flat documents; an assumption about MongoDB, validated through mongomock) -/
+
+def deq : EVal → EVal → Bool
+  | .j a, .j b => jeq a b
+  | .oid a, .oid b => a == b
+  | _, _ => false
+
+def ecmp : EVal → EVal → Option Ordering
+  | .j a, .j b => jcmp a b
+  | .oid a, .oid b => some (strCmp a b)
+  | _, _ => none
+
+/-- one `$`-operator on the value of a field; values of different kinds do not compare (no match) -/
+def eOpHolds (op : Str) (v : EVal) : EOperand → Bool
+  | .one w =>
+    if op = dGt then ecmp v w == some .gt
+    else if op = dGte then (match ecmp v w with | some o => o != .lt | none => false)
+    else if op = dLt then ecmp v w == some .lt
+    else if op = dLte then (match ecmp v w with | some o => o != .gt | none => false)
+    else if op = dIn then (match w with | .j (.arr l) => l.any (fun x => deq (.j x) v) | _ => false)
+    else false
+  | .many l => if op = dIn then l.any (fun x => deq x v) else false
+
+/-- a condition on a field: a missing field matches nothing -/
+def eCondHolds (v : Option EVal) (c : ECond) : Bool :=
+  match v with
+  | none => false
+  | some v =>
+    match c with
+    | .eq w => deq v w
+    | .ops l => l.all (fun ow => eOpHolds ow.1 v ow.2)
+
+def eMatches (doc : EDoc) (f : EFilt) : Bool := f.all (fun kc => eCondHolds (dget kc.1 doc) kc.2)
+
+def eKey (f : Str) (doc : EDoc) : Option JVal :=
+  match dget f doc with
+  | some (.j v) => some v
+  | _ => none
+
+/-- `cursor.sort(spec)`: stable, lexicographic -/
+def eSort (spec : List (Str × Int)) (docs : List EDoc) : List EDoc :=
+  isort (lexLt eKey (spec.map (fun fd => (fd.1, decide (fd.2 < 0))))) docs
+
+/-- `cursor.limit(n)`: 0 means no limit -/
+def eLimit (n : Option Nat) (docs : List EDoc) : List EDoc :=
+  match n with
+  | none => docs
+  | some 0 => docs
+  | some n => docs.take n
+
+/-- inclusion projection: the named fields, and "_id" unless switched off -/
+def eProject (p : Option (List (Str × Nat))) (doc : EDoc) : EDoc :=
+  match p with
+  | none => doc
+  | some p => doc.filter (fun kv => if kv.1 = kUid then dget kUid p != some 0 else dget kv.1 p == some 1)
+
+def eFind (docs : List EDoc) (f : EFilt) (p : Option (List (Str × Nat))) (sort : List (Str × Int)) (limit : Option Nat) :
+    List EDoc :=
+  (eLimit limit (if sort.isEmpty then docs.filter (eMatches · f) else eSort sort (docs.filter (eMatches · f)))).map
+    (eProject p)
+
+/-- `$set` changes the document (some field is new or gets a different value) -/
+def eChanged (d set : EDoc) : Bool :=
+  set.any (fun kv => match dget kv.1 d with | some o => !deq o kv.2 | none => true)
+
+/-- documents are stored with "_id" first -/
+def eNormDoc (doc : EDoc) : EDoc :=
+  match dget kUid doc with
+  | some e => (kUid, e) :: dpop kUid doc
+  | none => doc
+
+abbrev MState := List (Str × List EDoc)
+
+/-- One operation of the Mongo driver over the engine spec. `gen` are the bytes of the ObjectId the engine
+generates for a document inserted without "_id". -/
+def step (fx : Fix) (s : MState) (gen : List Nat) : Op → MState × Res
+  | .insert coll rec =>
+    let docs : List EDoc := aget [] coll s
+    match recordToDoc fx rec with
+    | none => (s, .err .badId)
+    | some doc =>
+      let doc' := match dget kUid doc with
+        | some _ => eNormDoc doc
+        | none => (kUid, EVal.oid gen) :: doc
+      match dget kUid doc' with
+      | some e =>
+        if docs.any (fun d => match dget kUid d with | some e' => deq e' e | none => false) then (s, .err .dup)
+        else (aset coll (docs ++ [doc']) s, .id (match eToJ e with | .str i => i | _ => []))
+      | none => (s, .err .badId)
+  | .update coll part filt =>
+    let docs : List EDoc := aget [] coll s
+    match recordToDoc fx part, filtToDb fx filt with
+    | some set, some f =>
+      let docs' := docs.map (fun d => if eMatches d f then dupdate d set else d)
+      let modified := (docs.filter (fun d => eMatches d f && eChanged d set)).length   -- modified_count
+      (aset coll docs' s, .count modified)
+    | _, _ => (s, .err .typeErr)
+  | .replace coll id rec =>
+    let docs : List EDoc := aget [] coll s
+    match idV fx (.str id) with
+    | none => (s, .err .badId)
+    | some e =>
+      let doc := (kUid, e) :: toE (dpop kUid rec)       -- record['_id'] = id_ (an "id" key stays a field); "_id" first
+      let hit := docs.any (fun d => eMatches d [(kUid, .eq e)])
+      (aset coll (docs.map (fun d => if eMatches d [(kUid, .eq e)] then doc else d)) s, .flag hit)
+  | .remove coll filt =>
+    let docs : List EDoc := aget [] coll s
+    match filtToDb fx filt with
+    | some f => (aset coll (docs.filter (fun d => !eMatches d f)) s, .count (docs.filter (eMatches · f)).length)
+    | none => (s, .err .typeErr)
+  | .query coll fields filt sort limit =>
+    let docs : List EDoc := aget [] coll s
+    match filtToDb fx filt with
+    | some f => (s, .recs ((eFind docs f (projToDb fields) (sortToDb sort) limit).map recordFromDoc))
+    | none => (s, .err .typeErr)
+  | .reload => (s, .unit)
+
 end Mongo
 
 end QtVerif.Store
